@@ -159,6 +159,18 @@ CHECKS = {
          "segments and clamp_length(_min/_max)."),
    note="Trusted: TLC, harness interp.rs. Tolerances 2e-4 (f32 angle-derived; polynomial arccos/sine) / 1e-9 (f64); angle = s*theta between lattice arcs undecided.",
    ref="5 (C12)"),
+ "C18": dict(
+   technique="TLA+ call machine over a generated vocabulary of 839 public float functions x argument slots x special values (specified outcome: returns), and a slice/index model with canary tokens; replay under catch_unwind in five builds including AddressSanitizer",
+   text=("tools/gen_c18.py produces from one table both spec/C18Ops.tla and the harness dispatch, so the specification quantifies over "
+         "exactly the functions the harness can call. MC_C18 enumerates every function x slot x {all lanes, each lane/entry} x 9 special "
+         "values and 8 special pairs per slot pair with the specified outcome 'returns'; MC_C18b models from_slice/write_to_slice/"
+         "from_cols_slice/write_cols_to_slice on canary sequences (panic iff short, destination unchanged on panic, exactly N elements "
+         "touched; TLC checks these as theorems) and Index/IndexMut/col/col_mut/row/minor for every index 0..N+2 and usize::MAX. "
+         "Replayed with exactly-sized heap buffers in sse2 (debug+release), scalar-math, core-simd and a nightly AddressSanitizer build, "
+         "where a sanitizer report is a violation."),
+   note=("Trusted: TLC, the function table (a function missing from the table is not covered), harness safe.rs/safety.rs. Memory safety is "
+         "observed on the replayed behaviours, not proved. Integer panics are decided by C13, mask test/set by C15."),
+   ref="5 (C18)"),
 }
 
 PENDING = {}
